@@ -22,7 +22,7 @@ EXPLANATION = (
     "reference is in the type table the source-column extractor tests membership against, or is reached by one of its crawl idioms; "
     "R02.4 the branches of a set operation are wired independently: no container that is filled while wiring one branch is shared with the "
     "next branch; sub-queries' source columns are attributed within the branch's own table group; R02.5 the late resolution of an unqualified column over several relations keeps every "
-    "candidate that defines it (no first-match selection; = R13.4). Does not decide: positional wiring across "
+    "candidate that defines it (no first-match selection; = R13.4); R02.6 qualifier and column of a reference are read from the parse tree, not by splitting its text at '.' (= R16.5). Does not decide: positional wiring across "
     "set-operation branches as values, qualifier resolution beyond precedence, naming of un-aliased expressions."
 )
 RULE_TEXT = "one obligation per type-table member demanded by the grammar, per scope-map operand, per container used in the per-branch loop, per precedence site"
@@ -68,7 +68,13 @@ def rules(ctx: Ctx) -> None:
                f"it must be in the type table, otherwise every column under that construct is silently dropped")
     crawls = {(k.func.attr, tuple(x for a in k.args for x in [prog.try_fold(a, esc.mod, esc)] if isinstance(x, str))) for f in [esc, prog.try_fn("SqlFluffColumn._get_column_from_parenthesis")] if f is not None
               for k in prog.walk_fn(f) if isinstance(k, ast.Call) and isinstance(k.func, ast.Attribute) and k.func.attr in ("recursive_crawl", "get_child")}
-    ctx.ob("R02.3", "crawl:function-brackets", ("recursive_crawl", ("bracketed",)) in crawls, esc.loc(), "function arguments and OVER(...) are reached by crawling the function's brackets")
+    from ..segnav import crawl_is_exhaustive
+
+    shallow = [k for k in prog.walk_fn(esc) if isinstance(k, ast.Call) and isinstance(k.func, ast.Attribute) and k.func.attr == "recursive_crawl"
+               and any(prog.try_fold(a, esc.mod, esc) == "bracketed" for a in k.args) and not crawl_is_exhaustive(prog, k, esc)]
+    ctx.ob("R02.3", "crawl:function-brackets", ("recursive_crawl", ("bracketed",)) in crawls and not shallow, loc(esc.mod, shallow[0]) if shallow else esc.loc(),
+           "function arguments and OVER(...) are reached by crawling all of the function's brackets (brackets nest: a crawl that does not recurse into its matches skips "
+           "the parentheses inside ORDER BY / INTERVAL / subscript arguments)")
     ctx.ob("R02.3", "crawl:window-specification", ("get_child", ("window_specification",)) in crawls, esc.loc(), "the window specification inside OVER(...) is unwrapped")
     for t in sorted(table):
         ctx.ob("R02.3", f"type-in-vocabulary:{t}", t in vocab, esc.loc(), f"type table member {t!r} exists in the grammar", trivial=True)
@@ -185,3 +191,7 @@ def rules(ctx: Ctx) -> None:
     meta = [n for n in sites if "get_table_columns" in u(n)]
     expl = [n for n in sites if n not in meta]
     ctx.ob("R02.1", "explicit-and-metadata-column-sites", bool(meta) and bool(expl), ci.loc(), f"{len(expl)} explicit and {len(meta)} metadata write-column site(s) in the INSERT/CREATE extractor")
+    # ---- R02.6 qualifier / column split of a reference follows the parse tree (= R16.5) -------------------------------------------
+    from .c16 import reference_parts_rule
+
+    reference_parts_rule(ctx, "R02.6")
